@@ -160,6 +160,32 @@ def run(rep, work, tier, seed, props, replay=None):
                     shown.add(key)
                     rep.violation({"kind": "operation sweep: back-propagating through %s after the graph of one of its operands was cleared by another backward() did not raise InvalidBackprop: %s"
                                            % (r["label"], r["outcome"]), "catalog_index": t["index"], "operand": t["operand"], "seed": t["seed"], "result": r})
+    # second pass after an aborted one, for every catalogue operation: L = <C, f(.., W, ..)> with W cleared by another backward(); L.backward() aborts
+    # (after f's own backward ran), W is re-used, L.backward() again: InvalidBackprop again, or exactly dL/dW of the recorded forward pass
+    rt_tasks, rt_res, rt_hist, rt_bad, rt_known = [], [], {}, 0, {}
+    if replay is None or "retry_index" in (replay or {}):
+        rp = None if replay is None else {"catalog_index": replay["retry_index"]}
+        rt_tasks, rt_res = gh.catalogue_sweep("retry", ([0, 1, 2] if tier == "thorough" else [0, 1]) if replay is None else [replay.get("operand", 0)], seed, "operand", rp)
+        shown = set()
+        for t, r in zip(rt_tasks, rt_res):
+            o = r["outcome"]
+            rt_hist[o] = rt_hist.get(o, 0) + 1
+            if o in ("second-pass-exact", "InvalidBackprop-again", "identity"):
+                continue
+            if o == "second-pass-raised:AssertionError" and r["label"].startswith("einsum") and "einsum_backward_single_use" in kf:
+                rt_known["einsum_backward_single_use"] = rt_known.get("einsum_backward_single_use", 0) + 1
+                continue
+            if o == "second-pass-raised:AttributeError" and r["label"].startswith("gru") and "gru_second_pass_attribute_error" in kf:
+                rt_known["gru_second_pass_attribute_error"] = rt_known.get("gru_second_pass_attribute_error", 0) + 1
+                continue
+            rt_bad += 1
+            key = r["label"].split("(")[0].split(" ")[0]
+            if key not in shown and len(shown) < 6:
+                shown.add(key)
+                rep.violation({"kind": "operation sweep: a second backward() through %s after an aborted pass: %s (the operation consumed per-pass state?)" % (r["label"], o),
+                               "retry_index": t["index"], "operand": t["operand"], "seed": t["seed"], "result": r})
+        for name, cnt in rt_known.items():
+            rep.known(name, "%s (%d catalogue entries in the retry sweep)" % (kf[name]["what"][:150], cnt))
     if not props["ok"]:
         rep.violation({"kind": "proof obligations of Props/C09.v no longer check", "broken": "Props/C09.v", "log": props["log"][-1500:]}, no_input=not viol)
 
@@ -169,8 +195,9 @@ def run(rep, work, tier, seed, props, replay=None):
         return sum(1 for k in kinds if k in ("backward", "clear")) >= 2
     nt = set(progs.canonical(b) for b in kb if nontrivial(b))
     rep.coverage.update({
-        "evaluations": len(kb) + len(sweep),
+        "evaluations": len(kb) + len(sweep) + len(rt_res),
         "operation_sweep_outcomes": sweep_hist, "operation_sweep_violations": sweep_bad,
+        "retry_sweep_outcomes": rt_hist, "retry_sweep_violations": rt_bad,
         "distinct_nontrivial": len(nt),
         "rule": "histories: 1-3 leaves, 2-7 ops, then 2-7 events drawn from {backward on a non-constant tensor, clear_graph, null_grad, 1-3 new ops on any live tensor "
                 "(incl. tensors whose graph was cleared), del}, then a final backward; non-trivial = at least two backward/clear_graph statements; distinct = distinct statement list",
